@@ -165,6 +165,11 @@ C["C15"]["harnesses"] += [
 ]
 C["C15"]["assumptions"] += ["timers are model timers fired by the harness; back-off replaced by its contract (>= 2.5 s)", "time.Now is symbolic non-decreasing"]
 
+C["C17"]["harnesses"] += [
+    H("ZZIncomingConnections", "torrent", "3 incoming connections (duplicate addresses possible, an address possibly banned) on a downloading torrent with MaxPeerAccept 1..2: incoming handshakes+peers never exceed the limit; refused connections are closed at once; a connection whose handshake fails (real incominghandshaker.Run + btconn.Accept on a 5-byte stream) is closed and its address forgotten", T(45, 900, flags=["-nospawn"]), T(45, 900, flags=["-nospawn"]), replay="model"),
+    H("ZZWebseedCap", "torrent", "real newTorrent with 0..12 web-seed sources and WebseedMaxSources 0..12: no crash, at most the maximum kept, nothing dropped within the limit", T(45, 900, flags=["-nospawn"]), T(45, 900, flags=["-nospawn"]), replay="model"),
+]
+
 for pid, spec in C.items():
     spec = dict(property=pid, **spec)
     json.dump(spec, open(os.path.join(D, pid + ".json"), "w"), indent=1)
